@@ -1,0 +1,6 @@
+//go:build !verif && !no_workceptor
+
+package workceptor
+
+// verifWatcher returns nil in normal builds: BaseWorkUnit.Init then creates the real file watcher.
+func verifWatcher() WatcherWrapper { return nil }
